@@ -19,7 +19,8 @@ Section Shape.
 
   Definition size (m : mat) : nat := nrows m * ncols m.
 
-  (** ** [reshape_mut]: the dimension logic (with the divisibility asserts of the repaired code) *)
+  (** ** [reshape_mut]: the dimension logic (with the divisibility asserts of the repaired code, and the request
+      0 x 0, accepted exactly when there are no elements: the empty matrix of [Matrix::empty()]) *)
   Definition reshape_dims (sz : nat) (r c : Z) : option (nat * nat) :=
     if ((0 <? r) && (0 <? c))%Z then
       let* _ := guard (r * c =? Z.of_nat sz)%Z in Some (Z.to_nat r, Z.to_nat c)
@@ -31,6 +32,8 @@ Section Shape.
       let* _ := guard ((c =? -1) && (0 <? r))%Z in
       let* _ := guard (sz mod Z.to_nat r =? 0) in
       Some (Z.to_nat r, sz / Z.to_nat r)
+    else if ((r =? 0) && (c =? 0))%Z then
+      let* _ := guard (sz =? 0) in Some (0, 0)
     else None.
 
   Definition reshape_mut (m : mat) (r c : Z) : option mat :=
@@ -51,6 +54,7 @@ Section Shape.
         let* _ := guard ((r =? -1) && (0 <? c))%Z in Some (Z.quot sz c, c)
       else if (c <? 0)%Z then
         let* _ := guard ((c =? -1) && (0 <? r))%Z in Some (r, Z.quot sz r)
+      else if ((r =? 0) && (c =? 0))%Z then Some (0, 0)%Z   (* [Matrix::new] checks that there are no elements *)
       else None in
     new (data m) r' c'.
 
